@@ -7,7 +7,7 @@ class H(Harness):
     ID = 'C07'
     ANCHOR_FILES = ['epydemic/compartmentedmodel.py', 'epydemic/sir_model.py', 'epydemic/sis_model.py', 'epydemic/sirs_model.py', 'epydemic/seir_model.py', 'epydemic/sir_model_fixed_recovery.py', 'epydemic/sis_model_fixed_recovery.py', 'epydemic/sir_model_variable_infection.py', 'epydemic/sivr_model.py', 'epydemic/opinion_model.py', 'epydemic/vaccinate_model.py']
     TIE_IMPORT = 'From EpyV Require Import Model.Kernel Model.Loci Model.Compart Model.CompartV Tie.Compart Tie.CompartV.\nOpen Scope Q_scope.'
-    CHECK_FN = 'EpyV.Tie.CompartV.check_any'
+    CHECK_FN = 'EpyV.Tie.CompartV.check_any_nomarks'      # occupied edges / hitting times are C08's business
     VO_TARGETS = ['Properties/C07.vo', 'Tie/CompartV.vo']
     QUICK_N = 400
     THOROUGH_N = 4000
@@ -16,7 +16,7 @@ class H(Harness):
             'parameters incl. 0 and 1, bare or as a named instance, alone or in a sequence with a Monitor, both dynamics, scripted random source; '
             'non-trivial = at least 2 compartment changes; distinct by the whole case')
     TRUSTED = ['Coq 8.16.1 kernel incl. vm_compute', 'harness/compart.py (observation of event-function entries, compartments after every event, final attributes)',
-               'handler summaries of the shipped event functions are re-extracted from /repo on every run by executing them (tie A)']
+               'harness/evsrc.py: fail-closed translator from the Python ast of the shipped event functions to the programs of Model/EvProg.v (tie A, regenerated on every run; Coq computes and checks the summaries); SIvR and SIR_VariableInfection event functions are not translated']
     ASSUMPTIONS = ['initial occupancies are dyadic so that (1 - p) + p == 1 exactly (the float corner named in DESIGN.md C07 is outside the tie)']
 
     def gen_cases(self, tier, rnd, n):
@@ -34,6 +34,11 @@ class H(Harness):
         except ImportError:
             return None
         return compart_coq.to_coq_any(case, obs)
+
+    def extra_obligations(self, workdir, tier):
+        # tie A: the event functions are re-translated from /repo's source and their summaries re-checked by Coq
+        from harness import evsrc
+        return evsrc.obligations(workdir, 'comp')
 
     def nontrivial(self, case, obs):
         if obs.get('skipped') or obs.get('exception'):
